@@ -105,7 +105,7 @@ class C11(Prop):
                "coq/model/RelParse.v, RelLex.v (the reader, proved total and conservative in C09's cone)",
                "debversion::Version Display/FromStr taken as the identity on the version texts the generators use",
                "extraction (ExtrOcamlBasic only), OCaml runner, Rust harness, Python driver and oracle"]
-    assumptions = ["the theorems are about the code with proposed_fixes/C11-*.patch applied (the model's `fixed` variant, including the pending C11-10-in-place-splice.patch); on the code without them the check reports the violations (without C11-10: the histories through handles never obtained again)",
+    assumptions = ["the theorems are about the code with proposed_fixes/C11-*.patch applied (the model's `fixed` variant; all of them are committed in /repo: C11-01..08 as 40d0dc3..12709db, C11-10-in-place-splice as 5517d72); on the code without them the check reports the violations (without C11-10: the histories through handles never obtained again)",
                    "indices within range where the API unwraps (replace, remove_entry, Entry::replace, remove_relation): out-of-range indices panic, in the model as in the code"]
     case_ms = 20000
 
